@@ -177,8 +177,9 @@ PROPS = {
         "nontrivial": lambda m: True,
         "assumptions": [
             "Go slices are views (buffer, offset, length) into a heap of buffers; make+copy/append allocate",
-            "Sample, RandSubAlign(consecutive) (and Append, IterateChar, SequenceChar) share buffers by design; they "
-            "are not in the property's list: the model predicts the sharing, the spec oracle does not judge them",
+            "Sample and RandSubAlign(consecutive) used to return views of their source; sub-alignments are in the property's list: "
+            "they were repaired to copy (54e0bdb, 99ad2ca) and are judged as copies; Append, IterateChar and SequenceChar expose "
+            "buffers by design and are not judged",
         ],
     },
     "C09": {
